@@ -308,3 +308,21 @@ func havoc(name string, rv reflect.Value) {
 		}
 	}
 }
+
+// SynctestEpoch is the instant at which a testing/synctest bubble starts (2000-01-01T00:00:00Z).
+const SynctestEpoch = 946684800
+
+// SetNow declares the current wall-clock time seen by time.Now(). Natively the replay runs inside a
+// testing/synctest bubble whose clock starts at SynctestEpoch: only that start is supported.
+func SetNow(t time.Time) {
+	if d := t.Sub(time.Now()); d > 0 {
+		time.Sleep(d)
+	}
+}
+
+// AdvanceNow lets d pass on the wall clock seen by time.Now().
+func AdvanceNow(d time.Duration) {
+	if d > 0 {
+		time.Sleep(d)
+	}
+}
